@@ -1382,6 +1382,10 @@ class Interp:
                 dflt = _fresh_parser_attr(cls, name)
                 if dflt is not _MISSING:
                     return dflt
+                # neither the contract's pre-state nor a freshly constructed parser has it: the attribute is set up elsewhere
+                # on the run path (e.g. per run in parse_data).  The contract cannot say what it holds here: out of reach
+                # for this contract (the bounded stand-in and the init-before-use clause still see it) - not an AttributeError
+                raise Unsupported("parser attribute %r is not part of this contract's state (initialised elsewhere on the run path)" % name)
             raise pyraise("AttributeError", name)
         if isinstance(o, ModRef):
             if o.name in self.prog.trees:
